@@ -256,6 +256,15 @@ impl World {
         }
         a.to_string()
     }
+    /// "r<N>" or "@p<K>" (the latest request sent to that peer)
+    fn req_pos(&self, name: &str) -> Option<usize> {
+        if let Some(peer) = name.strip_prefix('@') {
+            let id = self.peers.get(self.peer_idx(peer))?.id;
+            self.reqs.iter().rposition(|r| r.to.node_id == id)
+        } else {
+            self.reqs.iter().position(|r| r.name == name)
+        }
+    }
     fn rid_name(&self, id: &RequestId) -> String {
         self.reqs.iter().find(|r| r.id == *id).map(|r| r.name.clone()).unwrap_or_else(|| format!("x{}", hex::encode(&id.0)))
     }
@@ -322,8 +331,10 @@ impl World {
             });
         }
         let mut table: Vec<Value> = self.d.table_entries().into_iter().map(|(id, enr, st)| {
-            json!([self.id_name(&id), self.rec_name(&enr), if st.is_connected() {"C"} else {"D"}, if st.is_incoming() {"I"} else {"O"},
-                   self.log2(&self.local_id, &id)])
+            let name = self.rec_name(&enr);
+            let parts: Vec<&str> = name.split(':').collect();
+            json!([self.id_name(&id), name, if st.is_connected() {"C"} else {"D"}, if st.is_incoming() {"I"} else {"O"},
+                   self.log2(&self.local_id, &id), parts.get(1).and_then(|x| x.parse::<u64>().ok()).unwrap_or(0), parts.get(2).copied().unwrap_or("?")])
         }).collect();
         table.sort_by_key(|v| v[0].as_str().unwrap()[1..].parse::<usize>().unwrap_or(0));
         let bl = verif::ban_list_snapshot();
@@ -368,12 +379,14 @@ impl World {
         match o {
             "add_enr" => {
                 let e = self.rec(util::s(op, "rec"));
+                info.insert("id".into(), json!(util::s(op, "rec").split(':').next().unwrap()));
                 info.insert("ret".into(), json!(match self.d.add_enr(e) { Ok(()) => "ok".to_string(), Err(e) => format!("err: {e}") }));
             }
             "established" => {
                 let spec = util::s(op, "rec").to_string();
                 let e = self.rec(&spec);
                 let pi = self.peer_idx(spec.split(':').next().unwrap());
+                info.insert("id".into(), json!(spec.split(':').next().unwrap()));
                 let from = self.sock(op.get("from").and_then(|x| x.as_str()).unwrap_or("v4"), pi);
                 let dir = if op.get("dir").and_then(|x| x.as_str()) == Some("In") { ConnectionDirection::Incoming } else { ConnectionDirection::Outgoing };
                 let _ = self.hout.send(HandlerOut::Established(e, from, dir)).await;
@@ -404,7 +417,8 @@ impl World {
                 let _ = self.hout.send(HandlerOut::Request(NodeAddress::new(from, self.peers[pi].id), Box::new(Request { id: RequestId(idb), body }))).await;
             }
             "response_in" => {
-                let pos = match self.reqs.iter().position(|r| r.name == util::s(op, "req")) { Some(p) => p, None => { info.insert("unresolved".into(), json!("no such request")); return Value::Object(info); } };
+                let pos = match self.req_pos(util::s(op, "req")) { Some(p) => p, None => { info.insert("unresolved".into(), json!("no such request")); return Value::Object(info); } };
+                info.insert("req".into(), json!(self.reqs[pos].name));
                 let (id, to) = (self.reqs[pos].id.clone(), self.reqs[pos].to.clone());
                 let b = &op["body"];
                 let body = match util::s(b, "t") {
@@ -439,7 +453,8 @@ impl World {
                 let _ = self.hout.send(HandlerOut::Response(to, Box::new(Response { id, body }))).await;
             }
             "fail" => {
-                let pos = match self.reqs.iter().position(|r| r.name == util::s(op, "req")) { Some(p) => p, None => { info.insert("unresolved".into(), json!("no such request")); return Value::Object(info); } };
+                let pos = match self.req_pos(util::s(op, "req")) { Some(p) => p, None => { info.insert("unresolved".into(), json!("no such request")); return Value::Object(info); } };
+                info.insert("req".into(), json!(self.reqs[pos].name));
                 let id = self.reqs[pos].id.clone();
                 info.insert("from".into(), json!(self.id_name(&self.reqs[pos].to.node_id)));
                 let _ = self.hout.send(HandlerOut::RequestFailed(id, discv5::RequestError::Timeout)).await;
@@ -501,7 +516,8 @@ impl World {
             }
             "honest_reply" => {
                 // the request r<N> is answered by a second real node with the responder's identity and the given table
-                let pos = match self.reqs.iter().position(|r| r.name == util::s(op, "req")) { Some(p) => p, None => { info.insert("unresolved".into(), json!("no such request")); return Value::Object(info); } };
+                let pos = match self.req_pos(util::s(op, "req")) { Some(p) => p, None => { info.insert("unresolved".into(), json!("no such request")); return Value::Object(info); } };
+                info.insert("req".into(), json!(self.reqs[pos].name));
                 let (id, to) = (self.reqs[pos].id.clone(), self.reqs[pos].to.clone());
                 let rname = self.id_name(&to.node_id);
                 let ds: Vec<u64> = self.reqs[pos].ds.clone();
